@@ -706,7 +706,11 @@ where
 
 impl<I: Integer, const N: usize> fmt::Display for Bvf<I, N> {
     fn fmt(&self, f: &mut fmt::Formatter<'_>) -> fmt::Result {
-        let base = Self::try_from(10u8).expect("Should fit in any Bvf type");
+        if self.is_zero() {
+            return f.pad_integral(true, "", "0");
+        }
+
+        let base = Self::try_from(10u8).expect("Should fit in any non-zero Bvf");
         let mut s = Vec::<char>::new();
         let mut quotient = *self;
         let mut remainder;
